@@ -297,6 +297,18 @@ impl Prop for Read {
         let zsign = u.below(3)? as u8;
         let (zh, zm) = (pickb(u, 23)?, pickb(u, 59)?);
         let mut c = ReadCase { y, mo, d, h, mi, s, frac, zsign, zh, zm, via_from_str: u.coin(1, 3)? };
+        // local time and offset chosen so that the UTC time of day is exactly 00:00:00 (or 24:00:00
+        // of the local day): the carry point of the local -> UTC conversion
+        if c.zsign != 0 && u.coin(1, 6)? {
+            let off_min = (c.zh * 60 + c.zm) as i64;
+            let local_min = if c.zsign == 1 { off_min } else { (1440 - off_min) % 1440 };
+            c.h = (local_min / 60) as u32;
+            c.mi = (local_min % 60) as u32;
+            c.s = 0;
+            if u.coin(1, 2)? {
+                c.frac = String::new();
+            }
+        }
         // field mutants (one field out of range)
         if u.coin(1, 4)? {
             match u.below(11)? {
@@ -380,15 +392,35 @@ impl Prop for Read {
         }
         let r = catch(|| {
             let r = if c.via_from_str { text.parse::<DateTime>() } else { DateTime::parse_rfc3339(&text) };
-            r.map(|d| (rd_dt(&d), d.get_offset()))
+            r.map(|d| (rd_dt(&d), d.get_offset(), canonical_dt(&d), d.set_offset(Offset::Fixed(0)).format_rfc3339(Precision::Nanos)))
         });
         match (valid, r) {
             (_, Err(p)) => fail("c13.parse_rfc3339_panic", format!("parse_rfc3339({:?}) returns a Result", text), p.short()),
-            (false, Ok(Ok((i, _)))) => fail("c13.read_accepts_out_of_range_field", format!("parse_rfc3339({:?}) = Err", text), format!("Ok({})", fmt_instant(i))),
+            (false, Ok(Ok((i, ..)))) => fail("c13.read_accepts_out_of_range_field", format!("parse_rfc3339({:?}) = Err", text), format!("Ok({})", fmt_instant(i))),
             (false, Ok(Err(_))) => Verdict::Pass,
             (true, Ok(Err(e))) => fail("c13.read_rejects_grammatical", format!("parse_rfc3339({:?}) is Ok", text), format!("Err({})", e)),
-            (true, Ok(Ok((i, off)))) => {
+            (true, Ok(Ok((i, off, canon, utc_text)))) => {
                 let (want, round_up) = st.instant();
+                if tl::fields(want).day_ns < 1_000_000_000 && st.offset() != 0 {
+                    cx.nt("utc_time_exactly_at_midnight");
+                }
+                if let Err(why) = canon {
+                    return fail("c13.read_non_canonical_value", format!("parse_rfc3339({:?}) is a canonical value of its instant", text), why);
+                }
+                // written back at UTC it must be a grammatical timestamp of the same instant (when the
+                // UTC year is still inside 0001..=9999)
+                let utc_year = tl::fields(i).year;
+                match read_shape(&utc_text) {
+                    _ if !(1..=9999).contains(&utc_year) => {}
+                    Some(back) if back.fields_valid() && back.instant().0 == i && back.offset() == 0 => {}
+                    _ => {
+                        return fail(
+                            "c13.read_then_write_utc",
+                            format!("parse_rfc3339({:?}).set_offset(0).format_rfc3339(Nanos) denotes {}", text, fmt_instant(i)),
+                            format!("{:?}", utc_text),
+                        )
+                    }
+                }
                 if i != want && !(round_up && i == want + 1) {
                     let sig = if c.frac.len() > 9 { "c13.read_fraction_over_9_digits" } else { "c13.read_wrong_instant" };
                     return fail(sig, format!("parse_rfc3339({:?}) = {}", text, fmt_instant(want)), fmt_instant(i));
